@@ -5,10 +5,19 @@ CONSTANTS
   StoreFailed = FALSE
   PosKeyMode = "abs"
   IdxKeyMode = "abs"
+  ImgKeepMode = "none"
+  LookupsCap = 0
   MaxDepth = 3
   MaxDepthDmg = 2
   MaxDepthCollide = 2
-  Families = {"intact", "dmg", "collide"}
+  Families = {"intact", "dmg", "collide", "img", "fill", "scopes"}
+  ImgCounts = {2, 3}
+  ImgFilterMode = "own"
+  MaxImgFilters = 3
+  FillKeys = 150
+  FillLangs = 100
+  FillLookups = 150
+  MaxDepthScopes = 2
 SPECIFICATION Spec
 VIEW View
 INVARIANTS ModelExact EmitCase
